@@ -1179,7 +1179,7 @@ def explore(ctx, factor, bs):
         case = triggered_form(rng, big=not ctx.quick() and i % 5 == 0)
         workbook_case(ctx, case, "gen", advisory=(i % 4 == 0))
     colon_default_enum(ctx)
-    colon_default_stream(ctx, ctx.pick(400, 12000) * factor)
+    colon_default_stream(ctx, ctx.pick(400, 6000) * factor)
     ok = ctx.dist.get("model:ok", 0)
     tot = ok + ctx.dist.get("model:unsupported", 0) + ctx.dist.get("model:error", 0)
     ctx.notes["fragment_share"] = {"model_answered": ok, "converted_by_impl": tot, "share": round(ok / tot, 4) if tot else None}
